@@ -38,6 +38,28 @@ theorem reconstructs (o : Oracle V E) (ex : V → X) (h : ExportExact o ex) (e :
       rw [hk] at this
       exact this
 
+/-- `replay_eq_cache` and `reconstructs` under the hypothesis the harness tests on EVERY case instead of assuming it: the
+comparison only has to be exact (`!=` false ⇒ same exported form) on CANONICAL values — results of the datatype's
+conversion / validation —, because nothing else ever reaches the cache: the entry starts with a canonical value, the
+conversion yields canonical values, and a value announced with `validate=False` is canonical (what the docstring of
+`announceUpdate` demands and the wrappers do).  Raw values that break the law (`-0.0`/`0.0`, `1`/`True`, list/tuple) do
+not matter. -/
+theorem replay_eq_cache_canonical (o : Oracle V E) (ex : V → X) (canon : V → Bool) (h : CanonExact o ex canon)
+    (e : Entry V E) (evs : List (TEv V E)) (he : canon e.value = true)
+    (hconv : ∀ v v', o.conv v = .ok v' → canon v' = true)
+    (hraw : ∀ x ∈ evs, ∀ v, x.ev = .value v false → canon v = true) :
+    replay (e.ve.map ex) ((run o e evs).msgs.map (fun m => m.ve.map ex)) = (run o e evs).entry.ve.map ex ∧
+    Reconstructs (e.ve.map ex) ((trace o e evs).map (obsOf ex)) := by
+  have hx := canonEvs_resolve o canon evs hconv hraw
+  have hres : evs.map (TEv.resolve (restrictO o canon)) = evs.map (TEv.resolve o) := rfl
+  constructor
+  · have := replay_eq_cache (restrictO o canon) ex (restrictO_exact o ex canon h) e evs
+    unfold run at this ⊢
+    rwa [hres, runR_restrict o canon e _ he hx] at this
+  · have := reconstructs (restrictO o canon) ex (restrictO_exact o ex canon h) e evs
+    unfold trace at this ⊢
+    rwa [hres, traceR_restrict o canon e _ he hx] at this
+
 /-- Every emitted message equals the entry's value-or-error (and time stamp) at its emission. -/
 theorem never_phantom (o : Oracle V E) (ex : V → X) (e : Entry V E) (evs : List (TEv V E)) :
     NeverPhantom ((trace o e evs).map (obsOf ex)) ∧
@@ -765,6 +787,36 @@ example : ∃ s, Reach exCfgA exSA s ∧ s.lock = none ∧ Sub exCfgA s 3 0 ∧ 
     rw [h] at hd
     simp only [Option.map_some, Option.some.injEq, Prod.mk.injEq] at hd
     exact ⟨s, reach_of_runSched _ _ _ _ .start _ h, hd.1, ⟨by decide, Or.inr hd.2.1⟩, by decide, hd.2.2⟩
+
+/-! ### exactness on canonical values only -/
+
+/-- even numbers are canonical, the conversion rounds down to an even number, `!=` does not tell `2n` and `2n+1` apart -/
+def exCanon : Nat → Bool := fun v => v % 2 == 0
+def exOC : Oracle Nat Nat := ⟨fun a b => a / 2 == b / 2, fun v => .ok (v - v % 2), fun v => .ok (v - v % 2)⟩
+
+example : ¬ ExportExact exOC (fun v => v) := fun h => absurd (h 4 5 rfl) (by decide)
+theorem exOC_canonExact : CanonExact exOC (fun v => v) exCanon := by
+  intro a b ha hb hab
+  simp only [exCanon, exOC, beq_iff_eq] at ha hb hab
+  show a = b
+  omega
+example : ∀ v v', exOC.conv v = .ok v' → exCanon v' = true := by
+  intro v v' h
+  simp only [exOC, Except.ok.injEq] at h
+  subst h
+  simp only [exCanon, beq_iff_eq]
+  omega
+/-- assignments of 5 (stored as 4), 7 (stored as 6) and a read result 6 announced with `validate=False` -/
+def exHistC : List (TEv Nat Nat) := [⟨101, assignEv 5⟩, ⟨102, assignEv 7⟩, ⟨103, .value 6 false⟩]
+example : exCanon (⟨4, none, 100, 10⟩ : Entry Nat Nat).value = true ∧
+    (∀ x ∈ exHistC, ∀ v, x.ev = .value v false → exCanon v = true) := by
+  refine ⟨rfl, ?_⟩
+  intro x hx v hv
+  simp only [exHistC, List.mem_cons, List.mem_nil_iff, or_false] at hx
+  rcases hx with rfl | rfl | rfl <;> simp [assignEv] at hv
+  subst hv; rfl
+example : (run exOC ⟨4, none, 100, 10⟩ exHistC).msgs.map (·.ve) = [.val 6] ∧
+    (run exOC ⟨4, none, 100, 10⟩ exHistC).entry.ve = .val 6 := by decide
 
 /-! ### a comparison with a tolerance; requests through the dispatcher -/
 
